@@ -50,6 +50,14 @@ Theorem started_conditional_aux_truncates_outline : forall (O : TimeOps) (P : pr
 Proof. exact suspend_start_truncates. Qed.
 Print Assumptions started_conditional_aux_truncates_outline.
 
+(* a shared original auxiliary that is running for ANOTHER frame is never run, completed or deactivated by this
+   clause (it stays with its owner, whose suspended frames resume when it completes) *)
+Theorem foreign_running_aux_is_left_alone : forall (O : TimeOps) (P : prog O) sub a mf ns aux w mt m,
+  done (gett w aux) = false -> main (gett w aux) = Some (mt, m) -> (Nat.eqb mt a && Nat.eqb m mf) = false ->
+  suspend P sub a mf ns aux w = (w, false).
+Proof. exact suspend_foreign_running_noop. Qed.
+Print Assumptions foreign_running_aux_is_left_alone.
+
 (* "it then runs every tick regardless of its conditions until it completes" *)
 Theorem running_conditional_aux_ignores_conditions : forall (O : TimeOps) (P : prog O) sub a mf ns ns' aux w,
   done (gett w aux) = false -> suspend P sub a mf ns aux w = suspend P sub a mf ns' aux w.
